@@ -121,6 +121,10 @@ func read[EntityT entity.Interface](def Definition, wrapper func(e *Entity) Enti
 		}
 	}
 
+	// A breadth-first discovery order is only a topological order when all branches have the same
+	// length: reorder the commits so that every commit comes before all of its ancestors.
+	BFSOrder = childrenFirstOrder(BFSOrder)
+
 	// Now, we can reverse this topological order and read the commits in an order where
 	// we are sure to have read all the chronological ancestors when we read a commit.
 
@@ -242,6 +246,55 @@ func read[EntityT entity.Interface](def Definition, wrapper func(e *Entity) Enti
 		createTime: createTime,
 		editTime:   editTime,
 	}), nil
+}
+
+// childrenFirstOrder reorders the given commits (a set closed under the parent relation, with the
+// head in first position) so that every commit is placed before all of its ancestors.
+func childrenFirstOrder(commits []repository.Commit) []repository.Commit {
+	if len(commits) == 0 {
+		return commits
+	}
+
+	byHash := make(map[repository.Hash]repository.Commit, len(commits))
+	for _, commit := range commits {
+		byHash[commit.Hash] = commit
+	}
+
+	// iterative depth-first post-order traversal: a commit is emitted after all its parents
+	type frame struct {
+		commit     repository.Commit
+		nextParent int
+	}
+	parentsFirst := make([]repository.Commit, 0, len(commits))
+	done := make(map[repository.Hash]struct{}, len(commits))
+	entered := map[repository.Hash]struct{}{commits[0].Hash: {}}
+	stack := []frame{{commit: commits[0]}}
+
+	for len(stack) > 0 {
+		top := &stack[len(stack)-1]
+		if top.nextParent < len(top.commit.Parents) {
+			parentHash := top.commit.Parents[top.nextParent]
+			top.nextParent++
+			if _, ok := entered[parentHash]; ok {
+				continue
+			}
+			if parent, ok := byHash[parentHash]; ok {
+				entered[parentHash] = struct{}{}
+				stack = append(stack, frame{commit: parent})
+			}
+			continue
+		}
+		if _, ok := done[top.commit.Hash]; !ok {
+			done[top.commit.Hash] = struct{}{}
+			parentsFirst = append(parentsFirst, top.commit)
+		}
+		stack = stack[:len(stack)-1]
+	}
+
+	for i, j := 0, len(parentsFirst)-1; i < j; i, j = i+1, j-1 {
+		parentsFirst[i], parentsFirst[j] = parentsFirst[j], parentsFirst[i]
+	}
+	return parentsFirst
 }
 
 // readClockNoCheck fetch from git, read and witness the clocks of an Entity at an arbitrary git reference.
